@@ -142,6 +142,12 @@ func (p *Proxy) connectHTTP(req *http.Request, proxyURL *url.URL) (res *http.Res
 			res.Body.Close()
 			return newConnectResponse(req), conn, nil
 		}
+		if res.StatusCode < 200 {
+			// Neither a tunnel nor a rejection the client could be shown as a final response.
+			res.Body.Close()
+			conn.Close()
+			return nil, nil, fmt.Errorf("upstream proxy answered CONNECT with interim response %q", res.Status)
+		}
 
 		// If the proxy returns a non-2xx response, return it to the client.
 		// But first, replace the Request with the original request.
@@ -231,6 +237,10 @@ func (e *connectError) ConnectResponse() *http.Response {
 func OnProxyConnectResponse(_ context.Context, _ *url.URL, req *http.Request, connectRes *http.Response) error {
 	if connectRes.StatusCode/100 == 2 {
 		return nil
+	}
+	if connectRes.StatusCode < 200 {
+		// Neither a tunnel nor a rejection the client could be shown as a final response.
+		return fmt.Errorf("upstream proxy answered CONNECT with interim response %q", connectRes.Status)
 	}
 
 	var (
